@@ -26,6 +26,7 @@ pub struct LuaParser<'a> {
     ternary_depth: usize,
     paren_depth: usize,
     ternary_paren_depth: usize,
+    syntax_level: usize,
 }
 
 impl MarkerEventContainer for LuaParser<'_> {
@@ -67,6 +68,7 @@ impl<'a> LuaParser<'a> {
             ternary_depth: 0,
             paren_depth: 0,
             ternary_paren_depth: 0,
+            syntax_level: 0,
         };
 
         parse_chunk(&mut parser);
@@ -197,6 +199,25 @@ impl<'a> LuaParser<'a> {
         } else {
             self.tokens[index].kind
         }
+    }
+
+    /// Maximum nesting of statements, expressions and doc types. The grammar is recursive
+    /// descent, so deeper input would overflow the stack (worker threads have 2 MiB); the
+    /// reference Lua implementation stops at the same depth (`LUAI_MAXCCALLS`).
+    pub const MAX_SYNTAX_LEVELS: usize = 200;
+
+    /// Enter one level of syntactic nesting. Returns false when the limit is reached, the
+    /// caller then reports a syntax error instead of recursing.
+    pub(crate) fn enter_level(&mut self) -> bool {
+        if self.syntax_level >= Self::MAX_SYNTAX_LEVELS {
+            return false;
+        }
+        self.syntax_level += 1;
+        true
+    }
+
+    pub(crate) fn leave_level(&mut self) {
+        self.syntax_level = self.syntax_level.saturating_sub(1);
     }
 
     pub fn enter_ternary(&mut self) {
@@ -400,6 +421,7 @@ impl<'a> LuaParser<'a> {
             ternary_depth: 0,
             paren_depth: 0,
             ternary_paren_depth: 0,
+            syntax_level: 0,
         };
         parse_chunk(&mut parser);
         let mark_level = parser.mark_level;
@@ -471,6 +493,7 @@ mod tests {
             ternary_depth: 0,
             paren_depth: 0,
             ternary_paren_depth: 0,
+            syntax_level: 0,
         };
         parser.init();
 
